@@ -135,7 +135,16 @@ def c06(ctx, res):
                         "JsonUseNumber: a fixed catalogue of numerals compared textually"]
 
 
+def c14(ctx, res):
+    # the catalogue of leaf texts and what each denotes is regenerated from strconv on every run
+    ctx.harness_cmd(["castcat", "CastCatalogue.tla"])
+    ctx.gen_replay(res, "cast", "MC_C14.tla", "MC_C14.cfg", workers=4)
+    res.assumptions += ["strconv (ParseInt/ParseUint/ParseFloat/ParseBool) is the ground truth for what a text denotes; the catalogue module is generated from it",
+                        "documents in the C01 domain carry the catalogue text in element, attribute and text-key position; structure preservation under the cast flag is part of C01's replay (cast on/off)"]
+
+
 PROPS = {
+    "C14": c14,
     "C06": c06,
     "C05": c05,
     "C04": c04,
